@@ -298,21 +298,6 @@ def F20_split_street():
         return f'one street dealt, written as {line!r}'
 
 
-DEMOS = {k: v for k, v in globals().items() if k.startswith('F') and callable(v) and k[1:2].isdigit()}
-
-if __name__ == '__main__':
-    names = sys.argv[1:] or sorted(DEMOS, key=lambda x: (int(''.join(c for c in x if c.isdigit())), x))
-    bad = 0
-    for n in names:
-        try:
-            r = DEMOS[n]()
-        except Exception as e:  # noqa: BLE001
-            r = f'demo itself raised {type(e).__name__}: {e}'
-        print(f'{n}: ' + ('holds' if r is None else 'FAILS - ' + r))
-        bad += r is not None
-    sys.exit(1 if bad else 0)
-
-
 def F22_repeated_card():
     """C06 (fixed in 2d08528): the same card named twice in one dealing request."""
     import warnings
@@ -326,5 +311,43 @@ def F22_repeated_card():
         s.deal_hole('AsAs')
     cont = Counter(map(repr, list(s.deck_cards) + [c for h in s.hole_cards for c in h]))
     dup = [c for c, k in cont.items() if k > 1]
-    return {'warned': bool(rec), 'duplicated': dup,
-            'defect_present': bool(dup) and not rec}
+    if dup and not rec:
+        return f"deal_hole('AsAs') accepted without a warning; {dup} now in two places"
+
+
+def F23_repeated_shown_card():
+    """C06 (fixed in b2f3dc3): the same card named twice when unknown hole cards are shown."""
+    import warnings
+    from collections import Counter
+    from pokerkit import Automation, NoLimitTexasHoldem
+    s = NoLimitTexasHoldem.create_state(
+        (Automation.ANTE_POSTING, Automation.BET_COLLECTION, Automation.BLIND_OR_STRADDLE_POSTING,
+         Automation.CARD_BURNING, Automation.BOARD_DEALING, Automation.HAND_KILLING,
+         Automation.CHIPS_PUSHING, Automation.CHIPS_PULLING),
+        False, 0, (1, 2), 2, (200, 200), 2)
+    s.deal_hole('????')
+    s.deal_hole('????')
+    s.complete_bet_or_raise_to(200)
+    s.check_or_call()
+    with warnings.catch_warnings(record=True) as rec:
+        warnings.simplefilter('always')
+        s.show_or_muck_hole_cards('AhAh')
+    cont = Counter(map(repr, list(s.cards_in_play) + list(s.cards_not_in_play)))
+    dup = [c for c, k in cont.items() if k > 1 and c != '??']
+    if dup and not rec:
+        return f"show_or_muck_hole_cards('AhAh') accepted without a warning; {dup} now in two places"
+
+
+DEMOS = {k: v for k, v in globals().items() if k.startswith('F') and callable(v) and k[1:2].isdigit()}
+
+if __name__ == '__main__':
+    names = sys.argv[1:] or sorted(DEMOS, key=lambda x: (int(''.join(c for c in x if c.isdigit())), x))
+    bad = 0
+    for n in names:
+        try:
+            r = DEMOS[n]()
+        except Exception as e:  # noqa: BLE001
+            r = f'demo itself raised {type(e).__name__}: {e}'
+        print(f'{n}: ' + ('holds' if r is None else 'FAILS - ' + r))
+        bad += r is not None
+    sys.exit(1 if bad else 0)
